@@ -312,6 +312,22 @@ def rule_memo_owner(rep: Report, repo: Repo):
             n_calls += 1
             where = repo.loc(mod, node) if mod in repo.trees else f"pymablock/{mod}.py:{node.lineno}"
             owner = cls is not None and cls.name == "BlockSeries" and getattr(f, "name", "") == "__getitem__" and recv == "self"
+            if not owner and cls is not None and cls.name == "BlockSeries" and recv == "self" and isinstance(f, ast.FunctionDef) and f.name.startswith("_") \
+                    and not f.name.startswith("__"):
+                # a private helper method of BlockSeries: part of __getitem__ when __getitem__ (or another such helper) is its only caller
+                callers = set()
+                for t_ in repo.all_trees().values():
+                    for c_ in ast.walk(t_):
+                        if isinstance(c_, ast.Call) and isinstance(c_.func, ast.Attribute) and c_.func.attr == f.name:
+                            h_ = c_
+                            while hasattr(h_, "_parent") and not isinstance(h_, ast.FunctionDef):
+                                h_ = h_._parent
+                            callers.add((norm(c_.func.value), getattr(h_, "name", "?")))
+                if callers and all(rv_ == "self" and nm_ == "__getitem__" for rv_, nm_ in callers):
+                    # whether the memo protocol around the call is intact is the typestate rule's question (it reports `cannot decide` when
+                    # the store of the in-flight marker and the call are no longer in one function)
+                    raise AnalysisError(RULE, f"series::BlockSeries.{f.name} calls `self.eval` on behalf of __getitem__ (its only caller): "
+                                              "the memo protocol is split over two methods, not understood")
             rep.check(owner, RULE, f"{mod}::{getattr(f, 'name', '<module>')} T5b call `{norm(node)[:50]}` of a series' element function",
                       "only BlockSeries.__getitem__ may call `.eval`: its result is what the memo stores (exactly-once evaluation)", where)
     rep.floor(RULE, "calls of a series' element function", n_calls, 1)
